@@ -276,10 +276,19 @@ func c12Unblock(r *verdict.Run, race bool) {
 		}
 		defer w.cn.Close()
 		cmd := sc.form.args([]string{"q"}, "0")
+		// every other scenario issues CLIENT UNBLOCK from a connection that has another database selected
+		otherDB := i%2 == 1
+		if otherDB {
+			s.name += "/from-other-db"
+		}
 		unblock := func(id int64) resp.Value {
 			a := []string{"CLIENT", "UNBLOCK", strconv.FormatInt(id, 10)}
 			if sc.mode != "" {
 				a = append(a, sc.mode)
+			}
+			if otherDB {
+				s.do("SELECT", "3")
+				defer s.do("SELECT", "0")
 			}
 			return s.do(a...)
 		}
@@ -487,7 +496,12 @@ func c12Disconnect(r *verdict.Run) {
 		case "half-close":
 			w.cn.CloseWrite()
 		case "kill":
+			if i%2 == 1 {
+				// the killer has another database selected
+				s.do("SELECT", "5")
+			}
 			s.do("CLIENT", "KILL", "ID", strconv.FormatInt(w.id, 10))
+			s.do("SELECT", "0")
 		}
 		s.logf("fault %s applied to client %d", sc.how, w.id)
 		if tok != 0 {
